@@ -129,6 +129,17 @@ Definition layered_unit (u : cunit) (e : ext_entry) (p : prec) : cunit :=
      difference := match xe_difference e with Some d => d | None => difference u end;
      quantity := quantity u; usystem := usystem u |}.
 
+(* the aliases of unit [j] after the entries [ups] of one extend block (each entry already resolved to the
+   unit it addresses): only the entries addressed to [j] count, each according to the precedence of the block -
+   whatever else the block does (editing the base unit of an SI form regenerates the form) *)
+Fixpoint aliases_after (p : prec) (ups : list (nat * ext_entry)) (j : nat) (a : list str) : list str :=
+  match ups with
+  | [] => a
+  | (id, e) :: r =>
+      aliases_after p r j
+        (if Nat.eqb id j then match xe_aliases e with Some l => layered a l p | None => a end else a)
+  end.
+
 (* ---- the declared units, in the order the builder registers them -------- *)
 
 Definition entries_of (d : units_decl) : list (option system * unit_entry) :=
